@@ -779,12 +779,37 @@ func (env *SpecEnv) evalCall(st, old *State, x *ast.CallExpr) Val {
 		t := env.resolveType(x.Args[1])
 		return Val{c.unbox(v.T, t), t}
 	case "held":
-		key, _, _ := c.lockKeyOf(st, env.progExpr(x.Args[0]))
+		key, idx := env.specLockKey(st, old, x.Args[0])
 		h, cond, _ := c.lockHeldFor(st, key)
-		if h && cond != nil {
-			return Val{cond, boolT}
+		if !h {
+			return Val{False, boolT}
 		}
-		return Val{BoolLit(h), boolT}
+		t := True
+		if cond != nil {
+			t = cond
+		}
+		if idx != nil {
+			hi, ok := st.lockIdx[key]
+			if !ok {
+				return Val{False, boolT}
+			}
+			t = And(t, Eq(hi, idx))
+		}
+		return Val{t, boolT}
+	case "upd":
+		m, k, v := arg(0), arg(1), arg(2)
+		if _, _, ok := arrayParts(m.T.Sort); !ok {
+			env.errf("upd() on non-map")
+			return m
+		}
+		vt := v.T
+		if isNilVal(v) {
+			_, vs, _ := arrayParts(m.T.Sort)
+			if vs == SInt {
+				vt = IntLit(0)
+			}
+		}
+		return Val{Store(m.T, k.T, vt), m.Ty}
 	case "tagged":
 		if bl, ok := x.Args[0].(*ast.BasicLit); ok {
 			s, _ := strconv.Unquote(bl.Value)
@@ -1246,6 +1271,12 @@ func (c *ExecCtx) runCallAnchors(st *State, fn *types.Func, call *ast.CallExpr, 
 			if len(res) > 0 {
 				binds["ʃret"] = res[0]
 			}
+			for i, a := range c.callArgs {
+				binds[fmt.Sprintf("ʃarg%d", i)] = a
+			}
+			if c.callRecv != nil {
+				binds["ʃrecv"] = *c.callRecv
+			}
 			c.execGhostWith(st, g, call.Pos(), binds)
 		}
 	}
@@ -1478,4 +1509,24 @@ func (env *SpecEnv) typeFieldHeap(x *ast.SelectorExpr) (string, string, bool) {
 		}
 	}
 	return "", "", false
+}
+
+
+// specLockKey computes the lock key (and index term) of a lock expression
+// written in a contract: x.mu or x.locks[i], where x is a spec expression.
+func (env *SpecEnv) specLockKey(st, old *State, e ast.Expr) (string, *Term) {
+	switch x := e.(type) {
+	case *ast.IndexExpr:
+		k, _ := env.specLockKey(st, old, x.X)
+		i := env.eval(st, old, x.Index)
+		return k + "[]", i.T
+	case *ast.SelectorExpr:
+		b := env.eval(st, old, x.X)
+		return b.T.String() + "." + x.Sel.Name, nil
+	case *ast.ParenExpr:
+		return env.specLockKey(st, old, x.X)
+	case *ast.UnaryExpr:
+		return env.specLockKey(st, old, x.X)
+	}
+	return "?" + exprString(e), nil
 }
